@@ -1,6 +1,6 @@
 import FlytModel.Generated.IR
 import FlytModel.Expected.IR
-/-! The translation of `CustomNode_Post` from the CURRENT source is, term for term, the IR the refinement theorems are about. -/
+/-! The translation of `CustomNode_Post` from the CURRENT source is, term for term, the expected IR. -/
 namespace Flyt.Tie
 theorem CustomNode_Post : Flyt.Generated.IR.CustomNode_Post = Flyt.Expected.IR.CustomNode_Post := rfl
 end Flyt.Tie
